@@ -61,6 +61,8 @@ class Site:
         self.exit = exit_
         self.task = self.worker = self.facility = None
         self.ev = {}
+        self.task_loop = self.facility_loop = self.worker_loop = None
+        self.pick = self.worker_name = self.cand_name = None
 
 
 def walk_alts(trace, loops=(), before=()):
@@ -93,5 +95,36 @@ def allocation_sites(ctx):
                 s.ev["worker<-task"] = e
             elif e.attr == "assigned_task_list" and e.cls == FACILITY:
                 s.ev["facility<-task"] = e
+        _roles(f, s)
         sites.append(s)
     return f, sites
+
+
+def _roles(f, s):
+    """Which enclosing loop iterates the task / the facility / the worker of a site.  The worker may also be *picked*
+    (`w = candidates[<const>]`) instead of being a loop variable: then `worker_loop` is None and `pick` describes it."""
+    def loop_of(v):
+        return next((lp for lp in s.loops if v is not None and lp.var == v), None)
+    s.task_loop, s.facility_loop, s.worker_loop = loop_of(s.task), loop_of(s.facility), loop_of(s.worker)
+    s.pick = None
+    s.worker_name = s.cand_name = None
+    ew = s.ev.get("task<-worker")
+    call = ew.node if ew is not None else None
+    if isinstance(call, ast.Expr):
+        call = call.value
+    if isinstance(call, ast.Call) and call.args and isinstance(call.args[0], ast.Name):
+        s.worker_name = call.args[0].id
+    if s.worker_loop is not None:
+        if isinstance(s.worker_loop.node.target, ast.Name):
+            s.worker_name = s.worker_loop.node.target.id
+        s.cand_name = s.worker_loop.node.iter.id if isinstance(s.worker_loop.node.iter, ast.Name) else None
+    elif s.worker_name is not None and call is not None:
+        assigns = [a for a in ast.walk(f.node) if isinstance(a, ast.Assign) and len(a.targets) == 1 and isinstance(a.targets[0], ast.Name)
+                   and a.targets[0].id == s.worker_name and a.lineno <= call.lineno]
+        if assigns:
+            a = max(assigns, key=lambda a: a.lineno)
+            v = a.value
+            if isinstance(v, ast.Subscript) and isinstance(v.value, ast.Name) and not isinstance(v.slice, ast.Slice):
+                idx = v.slice.value if isinstance(v.slice, ast.Constant) else None
+                s.pick = {"node": a, "index": idx, "text": ast.unparse(v)}
+                s.cand_name = v.value.id
